@@ -42,14 +42,14 @@ impl CShape {
     }
 }
 #[derive(Clone, Debug, Hash)]
-enum HGeom {
+pub enum HGeom {
     /// closed point list as written to the BOUNDARY (first == last)
     Boundary(Vec<P>),
     Box([P; 5]),
     Path(Vec<P>, i64),
 }
 #[derive(Clone, Debug, Hash)]
-struct HShape {
+pub struct HShape {
     layer: i16,
     dt: i16,
     geom: HGeom,
@@ -76,19 +76,19 @@ impl HShape {
     }
 }
 #[derive(Clone, Debug, Hash)]
-struct HLabel {
+pub struct HLabel {
     layer: i16,
     texttype: i16,
     string: String,
     loc: P,
 }
 #[derive(Clone, Debug, Hash)]
-enum HRef {
+pub enum HRef {
     S { target: usize, loc: P, o: Orient, none_angle: bool, mag1: bool },
     A { target: usize, p0: P, colstep: P, rowstep: P, cols: i16, rows: i16, o: Orient, none_angle: bool },
 }
 #[derive(Clone, Debug, Hash)]
-struct HStruct {
+pub struct HStruct {
     name: String,
     shapes: Vec<HShape>,
     labels: Vec<HLabel>,
@@ -97,7 +97,7 @@ struct HStruct {
     order: Vec<usize>,
 }
 #[derive(Clone, Debug, Hash)]
-struct HLib {
+pub struct HLib {
     structs: Vec<HStruct>,
     listing: Vec<usize>,
     units: (u64, u64),
@@ -260,7 +260,7 @@ fn mixed_case(src: &mut Src) -> String {
 fn gen_orient(src: &mut Src) -> Orient {
     Orient::from_index(src.index(8))
 }
-fn gen_lib(src: &mut Src) -> HLib {
+pub fn gen_lib(src: &mut Src) -> HLib {
     let ns = src.usize_in(1, 5);
     let mut structs: Vec<HStruct> = vec![];
     for si in 0..ns {
@@ -388,7 +388,7 @@ fn strans(o: &Orient, none_angle: bool, mag1: bool) -> Option<g::GdsStrans> {
     }
     Some(g::GdsStrans { reflected: o.refl, angle: if o.rot == 0 && none_angle { None } else { Some(o.angle()) }, mag: if mag1 { Some(1.0) } else { None }, ..Default::default() })
 }
-fn to_gds(m: &HLib) -> g::GdsLibrary {
+pub fn to_gds(m: &HLib) -> g::GdsLibrary {
     let mut lib = g::GdsLibrary::new("hlib");
     lib.units = g::GdsUnits(f64::from_bits(m.units.0), f64::from_bits(m.units.1));
     for &si in &m.listing {
